@@ -778,8 +778,8 @@ class QuicConnection:
         """
         payload_length = len(data)
 
-        # stop handling packets when closing, or about to
-        if self._state in END_STATES or self._close_pending:
+        # stop handling packets when closing
+        if self._state in END_STATES:
             return
 
         # log datagram
@@ -815,6 +815,11 @@ class QuicConnection:
         # for servers, arm the idle timeout on the first datagram
         if self._close_at is None:
             self._close_at = now + self._idle_timeout()
+
+        # A close is pending, the packets are of no interest any more: once a
+        # fatal error has been raised, what follows must not be acted upon.
+        if self._close_pending:
+            return
 
         buf = Buffer(data=data)
         while not buf.eof():
